@@ -404,7 +404,17 @@ func (g *qgen) implicit() string {
 	case 0, 1, 2:
 		return fw.Pick(r, plainWords)
 	case 3:
-		return fw.Pick(r, []string{"1234", "007", "+5", "-5", "12345", "+123-456-7890", "(206) 555 1212", "2065551212", "0788123123", "+250788123123", "1.5", "12 34", "123"})
+		if r.Chance(0.5) {
+			// phone-like bare literals of every small length: digits with the separators people type, so that the number
+			// of digits that is left after clean-up sits on both sides of every length threshold
+			n := r.Range(1, 8)
+			var b strings.Builder
+			for i := 0; i < n; i++ {
+				b.WriteString([]string{"0", "1", "2", "7", "9", "-", "-", "-", "+", ".", "/"}[r.Weighted([]int{2, 3, 3, 2, 2, 3, 3, 2, 2, 1, 1})])
+			}
+			return b.String()
+		}
+		return fw.Pick(r, []string{"1234", "007", "+5", "-5", "12345", "+123-456-7890", "(206) 555 1212", "2065551212", "0788123123", "+250788123123", "1.5", "12 34", "123", "12--", "1-2-", "--7-", "+1---", "123-", "1-", "+-1"})
 	case 4:
 		return strconv.Quote(textValue(r))
 	case 5:
